@@ -353,6 +353,14 @@ Theorem normalisation_ignores_one_leading_country_prefix cc alts p s :
 Proof. exact (norm_generic_prefix cc alts p s). Qed.
 Print Assumptions normalisation_ignores_one_leading_country_prefix.
 
+(* ... except for Greece given as GR: its own prefix EL survives the first normalisation *)
+Theorem normalisation_of_GR_ignores_an_EL_prefix_refuted :
+  exists raw, has_prefix (bs "EL") (clean raw) = false /\
+    snd (normalize (bs "GR") (bs "EL" ++ raw)) <> snd (normalize (bs "GR") raw) /\
+    snd (normalize (bs "EL") (snd (normalize (bs "GR") (bs "EL" ++ raw)))) = snd (normalize (bs "GR") raw).
+Proof. exact normalize_GR_keeps_EL_prefix. Qed.
+Print Assumptions normalisation_of_GR_ignores_an_EL_prefix_refuted.
+
 Example separators_and_prefixes_exist :
   separators (bs " .-/_") /\ clean (bs "es-") = bs "ES" /\ has_prefix (bs "ES") (clean (bs "b85.905.495")) = false.
 Proof. vm_compute. repeat split. Qed.
